@@ -23,7 +23,7 @@ CHECKS = {
              "model; the same configurations are replayed into the code under forced schedules with a step budget, files "
              "compared across schedules; a four-block chain fed from one end is checked and replayed in every insertion "
              "order; random assemblies judged by TLC."
-             " A 'multi' part covers two-section chops between two blocks in six relative numberings, a 'swap4' part a row of four whose inner blocks have their first two directions swapped; cover/chain/multi/swap4 configurations are written twice (Regrade).",
+             " A 'multi' part covers two-section chops between two blocks in six relative numberings, a 'swap4' part a row of four whose inner blocks have their first two directions swapped; cover/chain/multi/swap4 configurations are written twice (Regrade). A 'chain5' part covers a row of five with one chop per family (the two shared directions up to four blocks apart) as it stands and in two scrambled insertion orders (thorough: all 120 orders).",
         note="Schedule control replaces Axis.neighbours / Wire.coincidents by a set subclass with a chosen iteration order "
              "(no source hook). Set iteration of the int worklist is over-approximated in the model.",
         technique="TLA+ spec Grading.tla: safety + liveness (WF) by TLC; schedule-forcing replay of spec configurations; "
@@ -239,11 +239,11 @@ CHECKS = {
              "a side of more than two blocks, blocks sharing >= 3 vertices share a whole side, connected through common "
              "sides, positive corner Jacobians, class vertex count, outer arcs on the intended circle/cone, writing succeeds, "
              "chained shapes share exactly the interface vertices."
-             " Revolved operations are also PLACED by the library's own transformations; three further placements per kind are assembled and judged. The repository's example scripts are run unmodified as recorded executions and every dictionary they write is judged by File.tla (RightHanded, WholeSides, SidesTwice; each example must run).",
+             " Revolved operations are also PLACED by the library's own transformations; three further placements per kind are assembled and judged. The repository's example scripts are run unmodified as recorded executions and every dictionary they write is judged by File.tla (RightHanded, WholeSides, SidesTwice; each example must run). Shell.tla (the shared-point store as a state machine: Unique, Owners, Covers, Stable, Conformal, Outward) is model-checked over every ordered list of up to three outer sides of two unit cubes and every emitted store replayed into the real Shell (offset corners, refusal of disconnected lists, vertex count of the written shell).",
         note="Jacobian signs and arc-on-circle are harness predicates over vertex positions (Hex.tla convention); vertex-count "
              "formulas are given for the classes where the statement implies one. Fixtures choose senses of rotation that "
              "carry faces along their normals.",
-        technique="TLA+ spec Blocking.tla/Hex.tla as trace acceptor over recorded assemblies (topological clauses evaluated by TLC)",
+        technique="TLA+ spec Blocking.tla/Hex.tla as trace acceptor over recorded assemblies (topological clauses evaluated by TLC); Shell.tla model-checked by TLC and its emitted stores replayed into the code",
         ref="DESIGN.md section 4 C11"),
 }
 
